@@ -1,0 +1,11 @@
+//go:build !verif
+
+package lisp
+
+// No-op twins of the verification hooks in verif_on.go (build tag `verif`).
+
+func verifOnStep(r *Runtime)                {}
+func verifOnPush(s *CallStack)              {}
+func verifOnPop(s *CallStack)               {}
+func verifOnEvalEnter(r *Runtime)           {}
+func verifOnTailElide(r *Runtime, npop int) {}
